@@ -60,6 +60,8 @@ def run(res, tier, seed, shard, nshards):
             res.inconc("reference encoder/decoder disagree with each other")
             return
     res.count("oracle_selfcheck", 300)
+    if shard == 0:
+        H.contracts_workload(res, ["frame_buffer.recv_strict", "ABNF.mask"])
 
     cases = []
     # (a) exhaustive header space
